@@ -13,7 +13,12 @@ Stages (DESIGN.md section 4, C09):
      (harness/props/c09_oracle.py: B-splines as exact piecewise polynomials): exact integrals
      for the 1D routines, Kronecker vs generic vs string vs predefined form, symmetry,
      definiteness, kernel, sum = measure, load vectors / integrals, geometry maps with
-     polynomial Jacobian determinant, the low-rank assembler within 4*tol, det/inv closed forms.
+     polynomial Jacobian determinant, det/inv closed forms; the low-rank assembler against the
+     generic one (entries within 4*tol*max(1,|A|max), every significant generic entry stored,
+     sum = measure, K*1 = 0) for every ordering of mixed degrees on identity-like geometries
+     (hard checks) and on the general geometries (where a value mismatch after a logged
+     'Skipped n times; stopping' of that very call is the open finding ...:skip-stop, but
+     entries that are not even stored are always reported separately as ...-entries-dropped).
 
 Error bounds (all stated, none tuned):
   R (rounding, per entry): sum over the quadrature cells c in the joint support of
@@ -248,6 +253,36 @@ def gen_cases(ctx):
         add({'kind': 'geo', 'spaces': spaces, 'geo': g, 'which': which, 'stiffness': which != 'para3' or True,
              'fast': rng.choice([1e-6, 1e-8, 1e-10])})
         dist['geo'][which] = dist['geo'].get(which, 0) + 1
+    # --- low-rank assembler vs generic assembler, all orderings of mixed degrees -----
+    # identity-like geometries (unit cube / axis-aligned scaling): every check of mass_fast is hard;
+    # for stiffness_fast a pure value mismatch whose own log shows 'Skipped n times; stopping' is the
+    # open finding, everything else (entries not stored, mismatch without that log, K*1, symmetry) is hard.
+    # Placed after the geometry cases so that the fixed sheared-cube case stays the first ACA call.
+    import itertools
+    degs = [list(q) for q in itertools.permutations((1, 2, 3))] + [[2, 1, 2], [1, 1, 2], [1, 3], [3, 1], [1, 2], [2, 1]]
+    if th:
+        degs += [[rng.randint(1, 3) for _ in range(rng.choice([2, 3, 3]))] for _ in range(30)]
+    for n, ps in enumerate(degs):
+        d = len(ps)
+        spaces = []
+        for p in ps:
+            kv, _, _ = gen_kv(rng, p, nb=rng.randint(4, 5) if d == 2 or not th else rng.randint(3, 5), unit=True)
+            spaces.append(spec(kv, p))
+        if n % 2 == 0:
+            g = {'kind': 'unit_cube'}
+            vol = F(1)
+        else:
+            sc = [F(rng.choice([1, 2, 3, 4, 6]), 2) for _ in range(d)]          # x_r = sc[r] * t_r
+            vol = F(1)
+            for v in sc:
+                vol *= v
+            co = np.zeros(d * (2,) + (d,))
+            for idx in itertools.product(*(d * [[0, 1]])):
+                co[idx] = [float(sc[r] * idx[d - 1 - r]) for r in range(d)]
+            g = {'kind': 'multilinear', 'coeffs': co.tolist(), 'scale': [str(v) for v in sc]}
+        add({'kind': 'fast', 'spaces': spaces, 'geo': g, 'tol': rng.choice([1e-8, 1e-10]), 'volume': str(vol), 'degrees': ps})
+        key = 'fast-d%d' % d
+        dist['dims'][key] = dist['dims'].get(key, 0) + 1
     # --- closed-form determinants / inverses --------------------------------------
     for d in (2, 3):
         mats = []
@@ -605,24 +640,78 @@ def check_geo(case, r, bad):
         # wrong Jacobian / missing abs / wrong weights, nothing finer
         if abs(int_one - 0.75 * math.pi) > 1e-2 * 0.75 * math.pi:
             bad.append(('geo-area:annulus', 'integrate(1) over the quarter annulus = %r, area %r' % (int_one, 0.75 * math.pi)))
-    # low-rank assembler: entrywise within 4*tol (relative to the largest entry)
-    # (a mismatch after the ACA loop gave up with "Skipped n times; stopping" is one class of
-    # failure whatever the geometry: signature ...:skip-stop)
-    if 'Mf' in r:
-        tol = case['fast']
-        Mf = np.load(r['Mf'])
-        if np.abs(Mf - M).max() > 4 * tol * max(1.0, np.abs(M).max()):
-            cls = 'skip-stop' if 'Skipped' in r.get('Mf_log', '') else which
-            bad.append(('fast-mass:' + cls, 'mass_fast differs from mass by %g (tol %g, largest entry %g); log: %r'
-                        % (np.abs(Mf - M).max(), tol, np.abs(M).max(), r.get('Mf_log', '')[-160:])))
-    if 'Kf' in r:
-        tol = case['fast']
-        K = np.load(r['K'])
-        Kf = np.load(r['Kf'])
-        if np.abs(Kf - K).max() > 4 * tol * max(1.0, np.abs(K).max()):
-            cls = 'skip-stop' if 'Skipped' in r.get('Kf_log', '') else which
-            bad.append(('fast-stiffness:' + cls, 'stiffness_fast differs from stiffness by %g (tol %g, largest entry %g); log: %r'
-                        % (np.abs(Kf - K).max(), tol, np.abs(K).max(), r.get('Kf_log', '')[-160:])))
+    # low-rank assembler: entrywise within 4*tol (relative to the largest entry), pattern
+    bad[0:0] = compare_fast(r, case['fast'], which, known_class=True)
+
+
+def compare_fast(r, tol, label, known_class):
+    """mass_fast / stiffness_fast against the generic assembler: entrywise within 4*tol*max(1,|A|max),
+    and every entry of the generic matrix above that threshold must be STORED in the fast matrix.
+    Classification of a mismatch (most specific first):
+      entries-dropped : a significant entry is not even stored (wrong band structure) -- never a
+                        consequence of the cross approximation stopping early, whatever the log says;
+      skip-stop       : (only with known_class) all significant entries are stored, values differ and
+                        the ACA log of THAT call shows 'Skipped n times; stopping';
+      entries         : anything else."""
+    out = []
+    for nm, A_, F_, P_, L_ in (('mass', 'M', 'Mf', 'Mf_pat', 'Mf_log'), ('stiffness', 'K', 'Kf', 'Kf_pat', 'Kf_log')):
+        if F_ not in r or A_ not in r:
+            continue
+        A = np.load(r[A_])
+        Af = np.load(r[F_])
+        P = np.load(r[P_])
+        thr = 4 * tol * max(1.0, np.abs(A).max())
+        if Af.shape != A.shape:
+            out.append(('fast-%s-shape:%s' % (nm, label), '%s_fast has shape %s, generic %s' % (nm, Af.shape, A.shape)))
+            continue
+        dropped = (np.abs(A) > thr) & (P == 0)
+        err = np.abs(Af - A)
+        if dropped.any():
+            i, j = [int(v) for v in np.argwhere(dropped)[0]]
+            out.append(('fast-%s-entries-dropped:%s' % (nm, label),
+                        '%s_fast does not store %d entries that are non-zero in the generic matrix, e.g. (%d,%d) = %g (tol %g)'
+                        % (nm, int(dropped.sum()), i, j, A[i, j], tol)))
+        elif err.max() > thr:
+            lg = r.get(L_, '')
+            cls = 'skip-stop' if (known_class and 'Skipped' in lg) else label
+            out.append(('fast-%s:%s' % (nm, cls), '%s_fast differs from %s by %g (tol %g, largest entry %g); log: %r'
+                        % (nm, nm, err.max(), tol, np.abs(A).max(), lg[-160:])))
+    return out
+
+
+def check_fast(case, r, bad):
+    """Hard checks of the low-rank assembler on identity-like geometries, all orderings of degrees."""
+    d = len(case['spaces'])
+    label = 'd%d' % d
+    tol = case['tol']
+    cmp_ = compare_fast(r, tol, label, known_class=True)
+    bad += cmp_
+    # the open finding (premature 'Skipped n times; stopping') also occurs on these geometries
+    # (e.g. seed 1: degrees (1,3,2), C^-1/C^0 knots, K_fast = 0); when it was diagnosed for the
+    # stiffness call of this case its consequences (K*1, symmetry) are not reported a second time
+    k_masked = any(c == 'fast-stiffness:skip-stop' for c, _ in cmp_)
+    M, K, Mf, Kf = (np.load(r[k]) for k in ('M', 'K', 'Mf', 'Kf'))
+    vol = float(F(case['volume']))
+    npts = 1
+    mp = max(s['p'] for s in case['spaces'])
+    for s in case['spaces']:
+        kv, p = kvF(s)
+        npts *= (len(orc.mesh_of(kv)) - 1) * (mp + 1)
+    nnz = int((np.load(r['Mf_pat']) != 0).sum())
+    # sum of the entries = measure: generic rounding/table bound + one 4*tol per stored entry
+    tol_s = ((npts * 4 + 256) * float(EPS) * (mp + 1) ** (2 * d) + 64 * d * float(orc.TABLE_DEFECT)) * vol \
+        + nnz * 4 * tol * max(1.0, np.abs(M).max())
+    if abs(Mf.sum() - vol) > tol_s:
+        bad.append(('fast-mass-sum:' + label, 'entries of mass_fast sum to %r, measure of the domain %r (degrees %s)'
+                    % (Mf.sum(), vol, case['degrees'])))
+    rownnz = int((np.load(r['Kf_pat']) != 0).sum(axis=1).max())
+    sc = max(1.0, np.abs(K).max())
+    tol_k = (npts * 4 + 256) * float(EPS) * sc * K.shape[0] + rownnz * 4 * tol * sc
+    if not k_masked and np.abs(Kf.sum(axis=1)).max() > tol_k:
+        bad.append(('fast-stiffness-kernel:' + label, '|K_fast * 1|max = %g (bound %g, degrees %s)'
+                    % (np.abs(Kf.sum(axis=1)).max(), tol_k, case['degrees'])))
+    if np.abs(Mf - Mf.T).max() > 8 * tol * max(1.0, np.abs(M).max()) or (not k_masked and np.abs(Kf - Kf.T).max() > 8 * tol * sc):
+        bad.append(('fast-sym:' + label, 'fast matrices not symmetric within 8*tol'))
 
 
 def check_detinv(case, r, bad):
@@ -766,6 +855,8 @@ def replay_of(case):
         'tp': 'assemble.mass/stiffness(kvs) vs (kvs, geo=identity) vs assemble("u * v * dx" / "inner(grad(u), grad(v)) * dx") vs vform.mass_vf/stiffness_vf; inner_products/integrate of prod f_k',
         'geo': 'assemble.mass/stiffness(kvs, geo), mass_fast/stiffness_fast(kvs, geo, tol=fast), integrate / inner_products with geo',
         'detinv': 'assemble_tools.determinants / det_and_inv / inverses on X.reshape(shape)',
+        'fast': 'assemble.mass_fast/stiffness_fast(kvs, geo, tol=tol) vs assemble.mass/stiffness(kvs, geo); geo = unit_cube(dim) or '
+                'BSplineFunc(d*(make_knots(1,0,1,1),), coeffs) (axis-aligned scaling)',
     }[case['kind']]
     return c
 
@@ -841,12 +932,16 @@ def run(ctx):
                         check_geo(c, r, bad)
                     elif c['kind'] == 'detinv':
                         check_detinv(c, r, bad)
+                    elif c['kind'] == 'fast':
+                        check_fast(c, r, bad)
                 except Exception:      # noqa
                     import traceback
                     ctx.broken.append('harness error while checking case %d (%s): %s' % (k, c['kind'], traceback.format_exc()[-600:]))
             for (code, text) in bad[:2]:
                 nfail += 1
-                ctx.report('impl:%s:%s' % (c['kind'], code), text, replay_of(c))
+                # the skip-stop class is one defect of fastasm.cc whatever the case family
+                sig = 'impl:geo:' + code if code.endswith(':skip-stop') else 'impl:%s:%s' % (c['kind'], code)
+                ctx.report(sig, text, replay_of(c))
         ctx.cov['traces_validated_against_impl'] = len(cases)
         ctx.cov['property_failures_on_impl'] = nfail
 
@@ -907,7 +1002,9 @@ def run(ctx):
     ctx.cov['rule'] = ('1d: open knot vectors (degree 0..6, 2..5 dyadic breakpoints, interior multiplicities 1..p) x (du,dv) <= p x '
                        'optional polynomial weight / over-integration; asym: two spaces of different degree and multiplicities on a common '
                        'mesh (equal meshes, nested meshes, refined quadrature grid); tp: dims 1..3 mixed degrees, 5 routes; geo: convex '
-                       'quadrilaterals (both orientations), parallelepipeds, B-spline/NURBS quarter annulus, twisted box; one evaluation = one case')
+                       'quadrilaterals (both orientations), parallelepipeds, B-spline/NURBS quarter annulus, twisted box; fast: mass_fast/stiffness_fast vs '
+                       'generic on unit cube / axis-aligned scalings for every permutation of degrees (1,2,3) in 3D, mixed degrees in 2D '
+                       '(entries within 4 tol, stored pattern, sum = measure, K*1 = 0); one evaluation = one case')
     ctx.cov['input_distribution'] = dist
     for k, (c, r) in enumerate(zip(cases, results)):
         if c['kind'] in ('1d', 'asym') and k % 9 == 0:
@@ -928,7 +1025,8 @@ def replay(ctx, data):
         if r['status'] != 'Ok':
             bad.append(('raises-' + r['status'], '%s case raised %s: %s' % (c['kind'], r['status'], r.get('msg'))))
         else:
-            {'1d': check_1d, 'asym': check_asym, 'tp': check_tp, 'geo': check_geo, 'detinv': check_detinv}[c['kind']](c, r, bad)
+            {'1d': check_1d, 'asym': check_asym, 'tp': check_tp, 'geo': check_geo, 'detinv': check_detinv,
+             'fast': check_fast}[c['kind']](c, r, bad)
         ctx.count(repr(c))
         for (code, text) in bad[:3]:
             ctx.report('impl:%s:%s' % (c['kind'], code), text, replay_of(c))
